@@ -22,10 +22,27 @@ def gen_index(rng, shape, malformed=False):
     style = rng.random()
     if nd == 0:
         return rng.choice([(), Ellipsis, None, (None, Ellipsis)]), ["rank0"]
+    if not malformed and style > 0.88:
+        # every element selected exactly once: full slices in either direction, inserted axes, an Ellipsis run
+        # (the result has the array's size, but is a permutation of it whenever a slice runs backwards)
+        for d in range(nd):
+            parts.append(rng.choice([slice(None), slice(None, None, -1), slice(None, None, 1), slice(-1, None, -1),
+                                     slice(None, None, -1), slice(0, None)]))
+        if rng.random() < 0.35:
+            a = rng.randint(0, nd)
+            b = rng.randint(a, nd)
+            if all(p == slice(None) or p == slice(0, None) for p in parts[a:b]):
+                parts[a:b] = [Ellipsis]
+        for _ in range(rng.randint(0, 2)):
+            parts.insert(rng.randint(0, len(parts)), None)
+        return tuple(parts), ["full-cover"] + (["newaxis"] if None in parts else []) + \
+            (["reversed"] if any(isinstance(p, slice) and p.step == -1 for p in parts) else [])
     if style < 0.12:
         # boolean mask over the leading k dims
         k = rng.randint(1, nd)
         mask = onp.array([rng.random() < 0.5 for _ in range(int(onp.prod(shape[:k])))]).reshape(shape[:k])
+        if rng.random() < 0.4:
+            return mask.tolist(), ["bool-mask", "bool-list"]       # a (nested) Python list of booleans is a mask too
         return mask, ["bool-mask"]
     want_adv = style < 0.45
     n_adv = 0
@@ -155,8 +172,8 @@ def main():
     while len(combos) < cfg["n_progs"]:
         combos.append(tuple(rng.choice("sd") for _ in range(rng.randint(5, 6))))
     for kinds in combos[:cfg["n_progs"]]:
-        shape = rng.choice(shapes[1:6])
-        n = int(onp.prod(shape))
+        shape = rng.choice(shapes[0:6])      # rank 0 included
+        n = int(onp.prod(shape)) if shape else 1
         lab = onp.arange(n).reshape(shape)
         uses, terms = [], []
         for kd in kinds:
@@ -189,7 +206,7 @@ def main():
         exp = onp.zeros(shape)
         for t in terms:
             if t[0] == "d":
-                exp = exp + t[1]
+                exp = onp.array(exp + t[1])
             else:
                 onp.add.at(exp, t[1], t[2])
         try:
